@@ -7,22 +7,29 @@ From RPFT Require Import Base.Sexp Base.PyStr Base.PyStrFacts Base.Result Gen.Ta
      Comp.RefineEdge Comp.RefineGroup.
 Import ListNotations.
 
+Section WithNames.
+Context {GN : GenNames}.
+
 (* ---------------------------------------------------------------- the fragment, as a proposition *)
-Definition edge_ok (e : redge) : Prop := c_cname (e_cond e) = [].
+Definition edge_ok (e : redge) : Prop := cond_ok (e_cond e).
 
 Definition row_ok (cr : crow) : Prop :=
   Forall edge_ok (r_edges (cr_row cr)) /\
+  (* the input encoding: a given `_nodeId` is the row's node name, and is not the hard-exit marker *)
+  (cr_uuid cr <> [] -> r_node_name (cr_row cr) = cr_uuid cr /\ cr_uuid cr <> hard_exit_sentinel) /\
   match r_type (cr_row cr) with
   | TNode cls acts dec0 =>
-    r_node_name (cr_row cr) = [] /\ cr_uuid cr = [] /\ cls = kind_cls (cr_kind cr) /\ dec0 = kind_dec0 (cr_kind cr)
+    cls = kind_cls (cr_kind cr) /\ dec0 = kind_dec0 (cr_kind cr)
     /\ match cr_kind cr with
        | KBasic1 | KBasic2 => length acts <= 1
-       | KRandom _ => False
-       | KWait _ _ | KSplitValue _ _ | KSplitGroup _ => acts = []
+       | KWait _ _ | KSplitValue _ _ | KSplitGroup _ | KRandom _ => acts = []
        | KEnterFlow _ | KWebhook _ | KAirtime _ => length acts = 1
        end
   | _ => True
   end.
+
+(* the code of this run reads the padding entries of the row as the reference does *)
+Definition reads_same (cr : crow) : Prop := read_edges (r_edges (cr_row cr)) = drop_padding (r_edges (cr_row cr)).
 
 Section Step.
 Variable fresh : nat -> id.
@@ -44,16 +51,17 @@ Proof.
   assert (Hbase : forall w, wait_cats w = [] -> forall wr nr0, (wr = WNone \/ wr = WMsg) -> nr0 = None ->
             match wr, w with WNone, CWNone | WMsg, CWMsg => True | _, _ => False end ->
             dec_sim phi uu (mkDec false operand wr (render_result result) [] [] wild0 nr0)
-                    (mkSwitch operand result w [] [] (mkCCat (fresh n) s_Other (mkCExit (fresh (S n)) None)))).
+                    (mkSwitch operand result w [] [] (mkCCat (fresh n) s_Other (mkCExit (fresh (S n)) None)) [])).
   { intros w Hw wr nr0 Hwr -> Hm. constructor; cbn.
     - reflexivity.
     - reflexivity.
     - reflexivity.
     - unfold wait_sim. cbn. destruct Hwr as [-> | ->], w; try contradiction; reflexivity.
     - constructor.
-    - split; cbn; exact I.
+    - split; cbn [fst snd wild0 rd_default cc_name sw_default]; [apply name_sim_wild; intros _; exact gname_other|exact I].
     - constructor.
-    - unfold sw_all_cats. cbn. rewrite Hw. cbn. constructor; [intros []|constructor]. }
+    - unfold sw_all_cats. cbn. rewrite Hw. cbn. constructor; [intros []|constructor].
+    - constructor; cbn; [constructor|intros u []|]. intros _. unfold sw_all_cats. cbn. rewrite Hw. cbn. constructor; [intros []|constructor]. }
   destruct timeout as [[|p]|].
   - intros H. injection H as <- <-. apply Hbase; auto. exact I.
   - destruct (new_cat fresh (S (S n)) s_NoResponse None) as [[nr n2]|e] eqn:E2; [|discriminate].
@@ -64,10 +72,13 @@ Proof.
     + reflexivity.
     + unfold wait_sim. cbn. split; [reflexivity|]. exists (CFixed s_NoResponse, DNone). split; [reflexivity|]. split; cbn; auto.
     + constructor.
-    + split; cbn; exact I.
+    + split; cbn [fst snd wild0 rd_default cc_name sw_default]; [apply name_sim_wild; intros _; exact gname_other|exact I].
     + constructor.
     + unfold sw_all_cats. cbn. constructor.
       * intros [H|[]]. apply fresh_inj in H. lia.
+      * constructor; [intros []|constructor].
+    + constructor; cbn; [constructor|intros u []|]. intros _. unfold sw_all_cats. cbn. constructor.
+      * intros [H|[]]. vm_compute in H. discriminate.
       * constructor; [intros []|constructor].
   - intros H. injection H as <- <-. apply Hbase; auto. exact I.
 Qed.
@@ -77,86 +88,82 @@ Definition payload_of (payloads : list sexp) : sexp := match payloads with p :: 
 Definition acts_ok (kind : nkind) (acts : list (id * sexp)) (payloads : list sexp) : Prop :=
   match kind with
   | KBasic1 | KBasic2 => map snd acts = payloads
-  | KRandom _ => False
-  | KWait _ _ | KSplitValue _ _ | KSplitGroup _ => acts = [] /\ payloads = []
+  | KWait _ _ | KSplitValue _ _ | KSplitGroup _ | KRandom _ => acts = [] /\ payloads = []
   | KEnterFlow _ | KWebhook _ | KAirtime _ => acts = [] /\ exists p, payloads = [p]
   end.
 
-Lemma new_switch_node_sim phi uu n operand sv timeout nd n' :
-  new_switch_node fresh n [] operand (Some sv) timeout = Ok (nd, n') ->
+Lemma new_switch_node_sim phi uu n given operand sv timeout nd n' :
+  new_switch_node fresh n given operand (Some sv) timeout = Ok (nd, n') ->
   exists r, cn_body nd = BSwitch SPlain r /\ cn_actions nd = []
             /\ dec_sim phi uu (mkDec false operand (wait_of timeout) (render_result (Some sv)) [] [] wild0 (noresp_of timeout)) r.
 Proof.
-  unfold new_switch_node, new_switch_parts. cbn [node_uuid]. destruct operand as [|c o]; [discriminate|].
-  destruct (new_switch fresh (S (S n)) (c :: o) (Some sv) timeout) as [[r n3]|e] eqn:E; [|discriminate].
+  unfold new_switch_node, new_switch_parts. destruct (node_uuid fresh given n) as [[u g] n1]. destruct operand as [|c o]; [discriminate|].
+  destruct (new_switch fresh (S n1) (c :: o) (Some sv) timeout) as [[r n3]|e] eqn:E; [|discriminate].
   intros H. injection H as <- <-. exists r. split; [reflexivity|]. split; [reflexivity|]. eapply new_switch_dec_sim'; eauto.
 Qed.
 
-Lemma new_row_node_sim phi uu n kind acts payloads nd n' :
+Lemma new_row_node_sim phi uu n kind given acts payloads nd n' :
   acts_ok kind acts payloads ->
-  new_row_node fresh n kind [] acts (payload_of payloads) = Ok (nd, n') ->
+  new_row_node fresh n kind given acts (payload_of payloads) = Ok (nd, n') ->
   node_sim phi uu (mkRNode payloads (kind_dec0 kind) DNone) nd None /\ class_ok (kind_cls kind) (rowtype_of kind) (cn_body nd).
 Proof.
   intros Ha. unfold new_row_node. destruct kind as [| |t sv|op sv|sv|sv|name|sv|sv]; cbn [acts_ok] in Ha.
-  - cbn [node_uuid]. intros H. injection H as <- <-. split; [|reflexivity].
+  - destruct (node_uuid fresh given n) as [[u g] n1]. intros H. injection H as <- <-. split; [|reflexivity].
     eapply NS_basic; cbn; eauto. exact I.
-  - cbn [node_uuid]. intros H. injection H as <- <-. split; [|reflexivity].
+  - destruct (node_uuid fresh given n) as [[u g] n1]. intros H. injection H as <- <-. split; [|reflexivity].
     eapply NS_basic; cbn; eauto. exact I.
-  - destruct Ha as [-> ->]. intros H. destruct (new_switch_node_sim phi uu _ _ _ _ _ _ H) as (r & Hb & Hac & Hds).
+  - destruct Ha as [-> ->]. intros H. destruct (new_switch_node_sim phi uu _ _ _ _ _ _ _ H) as (r & Hb & Hac & Hds).
     rewrite Hb. split; [|reflexivity].
     eapply NS_router with (cls := SPlain) (r := r) (d := mkDec false s_input_text (wait_of (Some t)) (render_result (Some sv)) [] [] wild0 (noresp_of (Some t)));
-      cbn; eauto; try (rewrite Hac; reflexivity); try (destruct t; reflexivity); try constructor.
-  - destruct Ha as [-> ->]. intros H. destruct (new_switch_node_sim phi uu _ _ _ _ _ _ H) as (r & Hb & Hac & Hds).
+      cbn; eauto; try (rewrite Hac; reflexivity); try (destruct t; reflexivity).
+    split; [constructor|split; [reflexivity|destruct t; cbn; [exact I|reflexivity]]].
+  - destruct Ha as [-> ->]. intros H. destruct (new_switch_node_sim phi uu _ _ _ _ _ _ _ H) as (r & Hb & Hac & Hds).
     rewrite Hb. split; [|reflexivity].
-    eapply NS_router with (cls := SPlain) (r := r); cbn; eauto; try (rewrite Hac; reflexivity); try constructor.
-  - destruct Ha as [-> ->]. intros H. destruct (new_switch_node_sim phi uu _ _ _ _ _ _ H) as (r & Hb & Hac & Hds).
+    eapply NS_router with (cls := SPlain) (r := r); cbn; eauto; try (rewrite Hac; reflexivity).
+    split; [constructor|split; [reflexivity|exact I]].
+  - destruct Ha as [-> ->]. intros H. destruct (new_switch_node_sim phi uu _ _ _ _ _ _ _ H) as (r & Hb & Hac & Hds).
     rewrite Hb. split; [|reflexivity].
-    eapply NS_router with (cls := SPlain) (r := r); cbn; eauto; try (rewrite Hac; reflexivity); try constructor.
-  - contradiction.
+    eapply NS_router with (cls := SPlain) (r := r); cbn; eauto; try (rewrite Hac; reflexivity).
+    split; [constructor|split; [reflexivity|exact I]].
+  - (* split_random *)
+    destruct Ha as [-> ->]. destruct (node_uuid fresh given n) as [[u g] n1]. intros H. injection H as <- <-. split; [|reflexivity].
+    eapply NS_random with (r := mkRandom (Some sv) []); cbn; eauto.
+    constructor; cbn; [reflexivity|reflexivity|constructor|constructor].
   - (* start_new_flow *)
-    destruct Ha as [-> (p & ->)]. unfold new_enter_node. cbn [node_uuid]. destruct name as [|c0 nm]; [discriminate|].
-    cbn. intros H. injection H as <- <-. split; [|exact I].
-    eapply NS_router with (cls := SEnter); cbn; eauto.
-    + constructor; cbn.
-      * reflexivity.
-      * reflexivity.
-      * reflexivity.
-      * reflexivity.
-      * constructor; [split; cbn; auto|constructor].
-      * split; cbn; auto.
-      * constructor; [repeat split; reflexivity|constructor; [repeat split; reflexivity|constructor]].
-      * unfold sw_all_cats. cbn. constructor; [intros [H|[]]; apply fresh_inj in H; lia|constructor; [intros []|constructor]].
-    + eexists. reflexivity.
+    destruct Ha as [-> (p & ->)]. unfold new_enter_node. destruct (node_uuid fresh given n) as [[u g] n1]. destruct name as [|c0 nm]; [discriminate|].
+    unfold sw_add_choice. destruct explicit_names_claimed eqn:Eflag; cbn; intros H; injection H as <- <-; (split; [|exact I]);
+      (eapply NS_router with (cls := SEnter); cbn; eauto; [|eexists; reflexivity]);
+      (constructor; cbn;
+       [reflexivity|reflexivity|reflexivity|reflexivity
+       |constructor; [split; cbn; auto|constructor]
+       |split; cbn; auto
+       |constructor; [repeat split; reflexivity|constructor; [repeat split; reflexivity|constructor]]
+       |unfold sw_all_cats; cbn; constructor; [intros [H|[]]; apply fresh_inj in H; lia|constructor; [intros []|constructor]]
+       |constructor; cbn; [constructor; [reflexivity|constructor]|intros x []|intros _; unfold sw_all_cats; cbn; constructor; [intros [H|[]]; discriminate H|constructor; [intros []|constructor]]]]).
   - (* call_webhook *)
-    destruct Ha as [-> (p & ->)]. unfold new_outcome_node. cbn [node_uuid]. destruct sv as [|c0 sv']; [discriminate|].
+    destruct Ha as [-> (p & ->)]. unfold new_outcome_node. destruct (node_uuid fresh given n) as [[u g] n1]. destruct sv as [|c0 sv']; [discriminate|].
     cbn [kind_dec0]. destruct (field_key (c0 :: sv')) as [key|e]; [|discriminate].
-    cbn. intros H. injection H as <- <-. split; [|exact I].
-    eapply NS_router with (cls := SOutcome); cbn; eauto.
-    + constructor; cbn.
-      * reflexivity.
-      * reflexivity.
-      * reflexivity.
-      * reflexivity.
-      * constructor; [split; cbn; auto|constructor].
-      * split; cbn; auto.
-      * constructor; [repeat split; reflexivity|constructor].
-      * unfold sw_all_cats. cbn. constructor; [intros [H|[]]; apply fresh_inj in H; lia|constructor; [intros []|constructor]].
-    + eexists. reflexivity.
+    unfold sw_add_choice. destruct explicit_names_claimed eqn:Eflag; cbn; intros H; injection H as <- <-; (split; [|exact I]);
+      (eapply NS_router with (cls := SOutcome); cbn; eauto; [|eexists; reflexivity]);
+      (constructor; cbn;
+       [reflexivity|reflexivity|reflexivity|reflexivity
+       |constructor; [split; cbn; auto|constructor]
+       |split; cbn; auto
+       |constructor; [repeat split; reflexivity|constructor]
+       |unfold sw_all_cats; cbn; constructor; [intros [H|[]]; apply fresh_inj in H; lia|constructor; [intros []|constructor]]
+       |constructor; cbn; [constructor; [reflexivity|constructor]|intros x []|intros _; unfold sw_all_cats; cbn; constructor; [intros [H|[]]; discriminate H|constructor; [intros []|constructor]]]]).
   - (* transfer_airtime *)
-    destruct Ha as [-> (p & ->)]. unfold new_outcome_node. cbn [node_uuid]. destruct sv as [|c0 sv']; [discriminate|].
+    destruct Ha as [-> (p & ->)]. unfold new_outcome_node. destruct (node_uuid fresh given n) as [[u g] n1]. destruct sv as [|c0 sv']; [discriminate|].
     cbn [kind_dec0]. destruct (field_key (c0 :: sv')) as [key|e]; [|discriminate].
-    cbn. intros H. injection H as <- <-. split; [|exact I].
-    eapply NS_router with (cls := SOutcome); cbn; eauto.
-    + constructor; cbn.
-      * reflexivity.
-      * reflexivity.
-      * reflexivity.
-      * reflexivity.
-      * constructor; [split; cbn; auto|constructor].
-      * split; cbn; auto.
-      * constructor; [repeat split; reflexivity|constructor].
-      * unfold sw_all_cats. cbn. constructor; [intros [H|[]]; apply fresh_inj in H; lia|constructor; [intros []|constructor]].
-    + eexists. reflexivity.
+    unfold sw_add_choice. destruct explicit_names_claimed eqn:Eflag; cbn; intros H; injection H as <- <-; (split; [|exact I]);
+      (eapply NS_router with (cls := SOutcome); cbn; eauto; [|eexists; reflexivity]);
+      (constructor; cbn;
+       [reflexivity|reflexivity|reflexivity|reflexivity
+       |constructor; [split; cbn; auto|constructor]
+       |split; cbn; auto
+       |constructor; [repeat split; reflexivity|constructor]
+       |unfold sw_all_cats; cbn; constructor; [intros [H|[]]; apply fresh_inj in H; lia|constructor; [intros []|constructor]]
+       |constructor; cbn; [constructor; [reflexivity|constructor]|intros x []|intros _; unfold sw_all_cats; cbn; constructor; [intros [H|[]]; discriminate H|constructor; [intros []|constructor]]]]).
 Qed.
 
 (* ---------------------------------------------------------------- edges of a row *)
@@ -247,70 +254,94 @@ Proof.
   - split; [reflexivity|]. split; [lia|]. split; [constructor; [apply below_fresh; lia|constructor]|apply FreshList_one; lia].
 Qed.
 
-(* a node row (not merged into another) *)
-Lemma node_row_sim phi sr sc cr cls payloads dec0 sr' sc' :
-  Sim phi sr sc -> StOK fresh GP sc -> row_ok cr -> r_type (cr_row cr) = TNode cls payloads dec0 ->
-  step_row nab sr (cr_row cr) = Some sr' -> cstep fresh sc cr = Ok sc' ->
+(* ---------------------------------------------------------------- node rows *)
+(* the two builders when the row makes a node of its own *)
+Definition ref_new (sr : st) (r : row) (cls : eclass) (payloads : list sexp) (dec0 : option rdec) : option st :=
+  let (s1, k) := RowSem.add_node sr (mkRNode payloads dec0 DNone) in
+  match fold_edges nab s1 (drop_padding (r_edges r)) (fun _ => DNode k) with
+  | None => None
+  | Some s2 => let (s3, g) := RowSem.add_group s2 (GRow k cls) (r_id r) in Some (push_names s3 (r_node_name r) k)
+  end.
+
+Definition comp_new (sc : cstate) (cr : crow) (acts : list (id * sexp)) (n1 : nat) (payloads : list sexp) : res cstate :=
+  match new_row_node fresh n1 (cr_kind cr) (cr_uuid cr) acts (payload_of payloads) with
+  | Err x => Err x
+  | Ok (nd, n2) =>
+    match foldM (fun s' e => cadd_row_edge fresh s' e (Some (cn_uuid nd))) (drop_padding (r_edges (cr_row cr))) (push_node sc nd n2) with
+    | Err x => Err x
+    | Ok s2 => Ok (set_names (add_cgroup s2 (CGRow (length (cs_nodes sc)) [] (rowtype_of (cr_kind cr))) (r_id (cr_row cr)))
+                             (or_default (cr_uuid cr) (r_node_name (cr_row cr))) (length (cs_nodes sc)))
+    end
+  end.
+
+(* the action of the row (drawn before the node) *)
+Definition row_acts (sc : cstate) (kind : nkind) (payloads : list sexp) : list (id * sexp) * nat :=
+  match (if is_basic_kind kind then match payloads with p :: _ => Some p | [] => None end else None) with
+  | Some p => ([(fresh (cs_next sc), p)], S (cs_next sc))
+  | None => ([], cs_next sc)
+  end.
+
+Definition kind_acts_ok (kind : nkind) (payloads : list sexp) : Prop :=
+  match kind with
+  | KBasic1 | KBasic2 => length payloads <= 1
+  | KWait _ _ | KSplitValue _ _ | KSplitGroup _ | KRandom _ => payloads = []
+  | KEnterFlow _ | KWebhook _ | KAirtime _ => length payloads = 1
+  end.
+
+Lemma row_acts_ok sc kind payloads acts n1 :
+  kind_acts_ok kind payloads -> row_acts sc kind payloads = (acts, n1) ->
+  acts_ok kind acts payloads /\ cs_next sc <= n1 /\ Forall (below fresh n1) (map fst acts) /\ FreshList fresh (cs_next sc) n1 (map fst acts).
+Proof.
+  intros Hacts Eacts. unfold row_acts in Eacts.
+  assert (Hnone : ([] : list (id * sexp), cs_next sc) = (acts, n1) ->
+                  acts = [] /\ cs_next sc <= n1 /\ Forall (below fresh n1) (map fst acts) /\ FreshList fresh (cs_next sc) n1 (map fst acts)).
+  { intros H. injection H as <- <-. split; [reflexivity|]. split; [lia|]. split; [constructor|apply FreshList_nil]. }
+  destruct kind; cbn [is_basic_kind acts_ok kind_acts_ok] in *.
+  - exact (basic_acts _ _ _ _ Hacts Eacts).
+  - exact (basic_acts _ _ _ _ Hacts Eacts).
+  - destruct (Hnone Eacts) as (-> & H2 & H3 & H4). auto.
+  - destruct (Hnone Eacts) as (-> & H2 & H3 & H4). auto.
+  - destruct (Hnone Eacts) as (-> & H2 & H3 & H4). auto.
+  - destruct (Hnone Eacts) as (-> & H2 & H3 & H4). auto.
+  - destruct (Hnone Eacts) as (-> & H2 & H3 & H4).
+    destruct payloads as [|p [|? ?]]; cbn in Hacts; try lia. split; [split; [reflexivity|eexists; reflexivity]|auto].
+  - destruct (Hnone Eacts) as (-> & H2 & H3 & H4).
+    destruct payloads as [|p [|? ?]]; cbn in Hacts; try lia. split; [split; [reflexivity|eexists; reflexivity]|auto].
+  - destruct (Hnone Eacts) as (-> & H2 & H3 & H4).
+    destruct payloads as [|p [|? ?]]; cbn in Hacts; try lia. split; [split; [reflexivity|eexists; reflexivity]|auto].
+Qed.
+
+(* a node row that makes a node of its own *)
+Lemma new_node_sim phi sr sc cr payloads acts n1 sr' sc' :
+  Sim phi sr sc -> StOK fresh GP sc -> Forall edge_ok (r_edges (cr_row cr)) ->
+  (cr_uuid cr <> [] -> GP (cr_uuid cr)) -> or_default (cr_uuid cr) (r_node_name (cr_row cr)) = r_node_name (cr_row cr) ->
+  acts_ok (cr_kind cr) acts payloads -> cs_next sc <= n1 -> Forall (below fresh n1) (map fst acts) -> FreshList fresh (cs_next sc) n1 (map fst acts) ->
+  ref_new sr (cr_row cr) (kind_cls (cr_kind cr)) payloads (kind_dec0 (cr_kind cr)) = Some sr' ->
+  comp_new sc cr acts n1 payloads = Ok sc' ->
   exists phi', Sim phi' sr' sc' /\ cs_heads sc' = cs_heads sc /\ phi_le phi phi'
                /\ nth_error phi' (length (s_nodes sr)) = Some (length (cs_nodes sc), None).
 Proof.
-  intros Hsim Hst [Hedges Hrow] Ht. rewrite Ht in Hrow. destruct Hrow as (Hname & Huuid & -> & -> & Hacts).
-  unfold step_row, cstep. rewrite Ht, Hname, Huuid. cbn [or_default].
+  intros Hsim Hst Hedges Hgiven Hname Haok Hn1 Hbelow Hfresh. unfold ref_new, comp_new. rewrite Hname.
   set (kind := cr_kind cr) in *.
-  set (row_action := if is_basic_kind kind then match payloads with p :: _ => Some p | [] => None end else None).
-  destruct (match row_action with Some p => ([(fresh (cs_next sc), p)], S (cs_next sc)) | None => ([], cs_next sc) end) as [acts n1] eqn:Eacts.
-  assert (Hacts' : acts_ok kind acts payloads /\ cs_next sc <= n1 /\ Forall (below fresh n1) (map fst acts)
-                   /\ FreshList fresh (cs_next sc) n1 (map fst acts)).
-  { assert (Hnone : forall n, ([] : list (id * sexp), n) = (acts, n1) ->
-                               acts = [] /\ cs_next sc <= n1 /\ Forall (below fresh n1) (map fst acts) /\ FreshList fresh (cs_next sc) n1 (map fst acts) \/ n <> cs_next sc).
-    { intros n H. destruct (Nat.eq_dec n (cs_next sc)) as [->|Hne]; [left|right; exact Hne]. injection H as <- <-.
-      split; [reflexivity|]. split; [lia|]. split; [constructor|apply FreshList_nil]. }
-    unfold row_action in Eacts. destruct kind; cbn [is_basic_kind acts_ok] in *; try contradiction.
-    - exact (basic_acts _ _ _ _ Hacts Eacts).
-    - exact (basic_acts _ _ _ _ Hacts Eacts).
-    - destruct (Hnone _ Eacts) as [(-> & H2 & H3 & H4)|Hne]; [|contradiction]. auto.
-    - destruct (Hnone _ Eacts) as [(-> & H2 & H3 & H4)|Hne]; [|contradiction]. auto.
-    - destruct (Hnone _ Eacts) as [(-> & H2 & H3 & H4)|Hne]; [|contradiction]. auto.
-    - destruct (Hnone _ Eacts) as [(-> & H2 & H3 & H4)|Hne]; [|contradiction].
-      destruct payloads as [|p [|? ?]]; cbn in Hacts; try lia. split; [split; [reflexivity|eexists; reflexivity]|auto].
-    - destruct (Hnone _ Eacts) as [(-> & H2 & H3 & H4)|Hne]; [|contradiction].
-      destruct payloads as [|p [|? ?]]; cbn in Hacts; try lia. split; [split; [reflexivity|eexists; reflexivity]|auto].
-    - destruct (Hnone _ Eacts) as [(-> & H2 & H3 & H4)|Hne]; [|contradiction].
-      destruct payloads as [|p [|? ?]]; cbn in Hacts; try lia. split; [split; [reflexivity|eexists; reflexivity]|auto]. }
-  destruct Hacts' as (Haok & Hn1 & Hbelow & Hfresh).
-  (* the merge branch is not taken: there is no node name *)
-  assert (Hnomerge : forall (X : Type) (a b : X), match row_action with Some _ => b | None => b end = b) by (intros; destruct row_action; reflexivity).
-  change (match payloads with p :: _ => p | [] => L [] end) with (payload_of payloads).
-  destruct (new_row_node fresh n1 kind [] acts (payload_of payloads)) as [[nd n2]|x] eqn:En.
-  2:{ intros _ H. destruct row_action; discriminate. }
-  destruct (new_row_node_sim (phi ++ [(length (cs_nodes sc), None)]) (cuu sc ++ [cn_uuid nd]) n1 kind acts payloads nd n2 Haok En) as [Hns Hcls].
-  destruct (new_row_node_ok fresh GP fresh_inj n1 (uuids sc ++ [cn_uuid nd]) kind [] acts (payload_of payloads) nd n2) as (N1 & N2 & _);
-    [intros Hne; contradiction|exact Hbelow|exact En|].
-  destruct (new_row_node_ids fresh fresh_inj (cs_next sc) n1 kind [] acts (payload_of payloads) nd n2 Hn1 Hfresh En) as (_ & Fn).
+  destruct (new_row_node fresh n1 kind (cr_uuid cr) acts (payload_of payloads)) as [[nd n2]|x] eqn:En; [|discriminate].
+  destruct (new_row_node_sim (phi ++ [(length (cs_nodes sc), None)]) (cuu sc ++ [cn_uuid nd]) n1 kind (cr_uuid cr) acts payloads nd n2 Haok En) as [Hns Hcls].
+  destruct (new_row_node_ok fresh GP fresh_inj n1 (uuids sc ++ [cn_uuid nd]) kind (cr_uuid cr) acts (payload_of payloads) nd n2) as (N1 & N2 & _);
+    [exact Hgiven|exact Hbelow|exact En|].
+  destruct (new_row_node_ids fresh fresh_inj (cs_next sc) n1 kind (cr_uuid cr) acts (payload_of payloads) nd n2 Hn1 Hfresh En) as (_ & Fn).
   set (n0 := mkRNode payloads (kind_dec0 kind) DNone) in *.
   set (k := length (s_nodes sr)). set (j := length (cs_nodes sc)) in *.
   set (phi1 := phi ++ [(j, None)]) in *.
   pose proof (Sim_push phi sr sc n0 nd n2 Hsim Hns) as Hsim1. fold j phi1 in Hsim1.
   assert (Hst1 : StOK fresh GP (push_node sc nd n2)) by (apply (push_StOK fresh GP fresh_inj); [exact Hst|lia|exact N2|exact Fn]).
-  set (es := match r_edges (cr_row cr) with [] => [] | e0 :: rest => e0 :: filter (fun e => negb (edge_trivial e)) rest end).
+  set (es := drop_padding (r_edges (cr_row cr))).
   assert (Hes : Forall edge_ok es).
-  { unfold es. destruct (r_edges (cr_row cr)) as [|e0 rest]; [constructor|]. inversion Hedges as [|? ? H0 Hr]; subst.
+  { unfold es, drop_padding. destruct (r_edges (cr_row cr)) as [|e0 rest]; [constructor|]. inversion Hedges as [|? ? H0 Hr]; subst.
     constructor; [exact H0|]. rewrite Forall_forall in *. intros e He. apply filter_In in He as [He _]. auto. }
-  cbv zeta. change (add_node sr (mkRNode payloads (kind_dec0 kind) DNone)) with (RowSem.add_node sr n0).
   destruct (RowSem.add_node sr n0) as [sr1 k'] eqn:Eadd. unfold RowSem.add_node in Eadd. injection Eadd as <- <-. fold k.
-  intros Hr Hc.
-  assert (Hr' : match fold_edges nab (mkSt (s_nodes sr ++ [n0]) (s_groups sr) (s_rowmap sr) (s_names sr) (s_stack sr)) es (fun _ => DNode k) with
-                | Some s2 => Some (fst (RowSem.add_group s2 (GRow k (kind_cls kind)) (r_id (cr_row cr))))
-                | None => None end = Some sr').
-  { destruct (fold_edges _ _ es _) as [s2|]; [|discriminate]. destruct (RowSem.add_group s2 _ _) as [s3 g3] eqn:Eg.
-    unfold push_names in Hr. injection Hr as <-. reflexivity. }
-  clear Hr.
-  assert (Hc' : match foldM (fun s' e => cadd_row_edge fresh s' e (Some (cn_uuid nd))) es (push_node sc nd n2) with
-                | Ok s2 => Ok (set_names (add_cgroup s2 (CGRow j [] (rowtype_of kind)) (r_id (cr_row cr))) [] j)
-                | Err x => Err x end = Ok sc') by (destruct row_action; exact Hc).
-  clear Hc.
-  destruct (fold_edges nab _ es _) as [sr2|] eqn:Ef1; [|discriminate]. injection Hr' as <-.
-  destruct (foldM _ es (push_node sc nd n2)) as [sc2|x] eqn:Ef2; [|discriminate]. injection Hc' as <-.
+  destruct (fold_edges nab _ es _) as [sr2|] eqn:Ef1; [|discriminate].
+  destruct (foldM _ es (push_node sc nd n2)) as [sc2|x] eqn:Ef2; [|discriminate].
+  destruct (RowSem.add_group sr2 (GRow k (kind_cls kind)) (r_id (cr_row cr))) as [s3 g3] eqn:Eg.
+  intros Hr Hc. injection Hr as <-. injection Hc as <-.
   assert (Hd1 : dest_sim phi1 (cuu (push_node sc nd n2)) (DNode k) (Some (cn_uuid nd))).
   { cbn. split.
     - eapply (uuid_not_sentinel (push_node sc nd n2) j); [exact Hst1|]. cbn. unfold j. apply nth_error_app2_same.
@@ -328,8 +359,108 @@ Proof.
   { apply Sim_add_group; [exact Hs2| | |intros ps k0; discriminate].
     - apply (GS_row phi2 (cs_nodes sc2) k (kind_cls kind) (j, None) (rowtype_of kind) nd2); [exact Hk2|exact Hj2|eapply class_ok_same; eauto].
     - intros x [<-|[]]. apply (gframe_grow _ _ k Hf2); [cbn; rewrite app_length; cbn; unfold k; lia|exact Hknew]. }
-  split; [destruct G as [G1 G2 G3 G4 G5 G6 G7 G8]; constructor; assumption|].
+  rewrite Eg in G. cbn [fst] in G.
+  split; [apply (Sim_names phi2 s3 _ (r_node_name (cr_row cr)) k (j, None) G Hk2)|].
   split; [cbn; rewrite (ext_heads _ _ He2); reflexivity|]. split; [eapply phi_le_trans; [apply phi_le_app|exact Hle2]|exact Hk2].
+Qed.
+
+(* every node an entry_node names is the node of a row group, hence never the decision node of a no_op *)
+Lemma entry_node_row fuel : forall sr g k, entry_node fuel sr g = Some k -> exists g' cls, nth_error (s_groups sr) g' = Some (GRow k cls).
+Proof.
+  induction fuel as [|f IH]; intros sr g k; cbn; [discriminate|].
+  destruct (nth_error (s_groups sr) g) as [[k0 cls|ps o|[|m ms]]|] eqn:E; try discriminate.
+  - intros H. injection H as <-. exists g, cls. exact E.
+  - apply IH.
+Qed.
+
+Lemma row_node_not_noop phi sr sc k g' cls : Sim phi sr sc -> nth_error (s_groups sr) g' = Some (GRow k cls) ->
+  forall g ps, nth_error (s_groups sr) g <> Some (GNoOp ps (Some k)).
+Proof.
+  intros Hsim Hg' g ps Hg. destruct (Nat.eq_dec g' g) as [->|Hne]; [congruence|].
+  eapply (flat_map_NoDup_idx grow_node (s_groups sr) g' g (GRow k cls) (GNoOp ps (Some k)) k (sim_ginj _ _ _ Hsim)); eauto; left; reflexivity.
+Qed.
+
+(* an action row merged into the node of that name *)
+Lemma merge_row_sim phi sr sc k kc e g acts n1 payloads rid sr' sc' :
+  Sim phi sr sc -> StOK fresh GP sc ->
+  (exists c, nth_error phi k = Some c /\ fst c = kc) ->
+  map snd acts = payloads -> cs_next sc <= n1 -> Forall (below fresh n1) (map fst acts) -> FreshList fresh (cs_next sc) n1 (map fst acts) ->
+  source_group sr e = Some (Some g) ->
+  match entry_node (fuel_of sr) sr g, nth_error (s_nodes sr) k with
+  | Some k', Some n => if Nat.eqb k k'
+                       then Some (alias_row (RowSem.set_node sr k (mkRNode (rn_actions n ++ payloads) (rn_dec n) (rn_cont n))) rid g)
+                       else None
+  | _, _ => None
+  end = Some sr' ->
+  match match e_from e with FBlank => most_recent (cs_stack sc) | FStart => None | FRow r0 => alookup (cs_rowmap sc) r0 end with
+  | None => Err (ECrash CAttributeError)
+  | Some g0 =>
+    match centry (cfuel sc) sc g0 with
+    | Err x => Err x
+    | Ok k' =>
+      if negb (Nat.eqb kc k') then Err EMergeSource
+      else match nth_error (cs_nodes sc) kc with
+           | None => Err EInternal
+           | Some nd =>
+             let s1 := Compile.set_node sc kc (mkCNode (cn_uuid nd) (cn_given nd) (cn_actions nd ++ acts) (cn_body nd)) n1 in
+             match rid with
+             | [] => Ok s1
+             | a0 :: r0 => match e_from e with
+                           | FRow frm => match alookup (cs_rowmap sc) frm with Some g' => Ok (set_rowmap s1 (a0 :: r0) g') | None => Err (ECrash CKeyError) end
+                           | _ => Err (ECrash CKeyError)
+                           end
+             end
+           end
+    end
+  end = Ok sc' ->
+  Sim phi sr' sc' /\ cs_heads sc' = cs_heads sc.
+Proof.
+  intros Hsim Hst (c & Hc & Efc) Hacts Hn1 Hbelow Hfresh Hsrc Hr Hcomp.
+  (* the source group is the same on both sides *)
+  assert (Hg0 : match e_from e with FBlank => most_recent (cs_stack sc) | FStart => None | FRow r0 => alookup (cs_rowmap sc) r0 end = Some g).
+  { unfold source_group in Hsrc. rewrite (sim_stack _ _ _ Hsim), (sim_rowmap _ _ _ Hsim) in Hsrc.
+    destruct (e_from e) as [| |r0]; [injection Hsrc as ->; reflexivity|discriminate|].
+    destruct (alookup (cs_rowmap sc) r0); [injection Hsrc as ->; reflexivity|discriminate]. }
+  rewrite Hg0 in Hcomp. rewrite (fuel_sim _ _ _ Hsim) in Hr.
+  destruct (entry_node (cfuel sc) sr g) as [k'|] eqn:Ee; [|discriminate].
+  destruct (nth_error (s_nodes sr) k) as [n|] eqn:En; [|discriminate].
+  destruct (Nat.eqb k k') eqn:Ekk; [|discriminate]. apply Nat.eqb_eq in Ekk. subst k'. injection Hr as <-.
+  destruct (centry (cfuel sc) sc g) as [k1|x] eqn:Ec; [|discriminate].
+  destruct (entry_sim fresh fresh_inj _ _ _ _ _ _ _ Hsim Ee Ec) as (c' & Hc' & Ec'). assert (c' = c) by congruence. subst c'.
+  rewrite <- Efc, Ec', Nat.eqb_refl in Hcomp. cbn [negb] in Hcomp.
+  destruct (sim_nodes _ _ _ Hsim k n c En Hc) as (nd & o & Hcn & Hns).
+  assert (Hnd : nth_error (cs_nodes sc) k1 = Some nd).
+  { unfold cluster_nodes in Hcn. rewrite Ec' in Hcn. destruct (nth_error (cs_nodes sc) k1) as [y|]; [|discriminate].
+    destruct (snd c) as [j|]; [destruct (nth_error (cs_nodes sc) j); [|discriminate]|]; injection Hcn as <- _; reflexivity. }
+  rewrite Hnd in Hcomp.
+  set (nd' := mkCNode (cn_uuid nd) (cn_given nd) (cn_actions nd ++ acts) (cn_body nd)) in *.
+  destruct (entry_node_row _ _ _ _ Ee) as (g' & cls' & Hg').
+  assert (Hs1 : Sim phi (RowSem.set_node sr k (mkRNode (rn_actions n ++ payloads) (rn_dec n) (rn_cont n))) (Compile.set_node sc k1 nd' n1)).
+  { eapply (Sim_set_row phi sr sc k n _ c k1 nd nd' n1 Hsim En Hc); eauto.
+    - rewrite <- Ec'. left. reflexivity.
+    - apply same_class_refl.
+    - eapply row_node_not_noop; eauto.
+    - intros nd2 o2 Hcn2. unfold cluster_nodes in Hcn, Hcn2. rewrite Ec' in Hcn, Hcn2. rewrite Hnd in Hcn.
+      rewrite (update_nth_same _ _ _ _ Hnd) in Hcn2.
+      assert (Hact' : map snd (cn_actions nd') = rn_actions n ++ payloads).
+      { unfold nd'. cbn. rewrite map_app, Hacts. f_equal. destruct Hns; assumption. }
+      destruct (snd c) as [j|] eqn:Ej.
+      + assert (Hne : k1 <> j).
+        { intros ->. pose proof (sim_disj _ _ _ Hsim) as Hd. destruct (flat_map_update_split cluster_idx _ _ _ Hc) as [E _]. rewrite E in Hd.
+          unfold cluster_idx in Hd. rewrite Ec', Ej in Hd. cbn in Hd. apply NoDup_app_r in Hd. inversion Hd as [|? ? Hx _]; subst. apply Hx. left. reflexivity. }
+        rewrite update_nth_other in Hcn2 by (intros E; apply Hne; symmetry; exact E).
+        destruct (nth_error (cs_nodes sc) j) as [nr|] eqn:Enr; [|discriminate]. injection Hcn as <-. injection Hcn2 as <- <-.
+        inversion Hns as [| | |? ? e0 nr0 r d H1 H2 H3 H4 H5 H6 H7 H8 H9]; subst.
+        eapply NS_implicit with (e := e0) (r := r); cbn; eauto.
+      + injection Hcn as <-. injection Hcn2 as <- <-.
+        inversion Hns as [? ? e0 H1 H2 H3 H4|? ? cls0 r0 d0 H1 H2 H3 H4 H5|? ? rr0 dr0 H1 H2 H3 H4|]; subst.
+        * eapply NS_basic with (e := e0); cbn; eauto.
+        * eapply NS_router with (cls := cls0) (r := r0); cbn; eauto.
+        * eapply NS_random with (r := rr0); cbn; eauto. }
+  pose proof (Sim_alias phi _ _ rid g Hs1) as Hs2.
+  destruct rid as [|a rid'].
+  - injection Hcomp as <-. split; [exact Hs2|reflexivity].
+  - destruct (e_from e) as [| |frm]; try discriminate. rewrite Hg0 in Hcomp. injection Hcomp as <-. split; [exact Hs2|reflexivity].
 Qed.
 
 (* hard_exit / loose_exit rows *)
@@ -385,7 +516,7 @@ Qed.
 
 (* the parents of a no_op / of a block head *)
 Lemma noop_parents_sim phi sr sc edges : forall acc ps ps',
-  Sim phi sr sc -> Forall edge_ok edges -> Forall (fun p : nat * econd => c_cname (snd p) = []) acc ->
+  Sim phi sr sc -> Forall edge_ok edges -> Forall (fun p : nat * econd => cond_ok (snd p)) acc ->
   fold_left (fun a e => match a with
                         | None => None
                         | Some q => match source_group sr e with
@@ -396,7 +527,7 @@ Lemma noop_parents_sim phi sr sc edges : forall acc ps ps',
                     | Err x => Err x
                     | Ok None => Ok q
                     | Ok (Some g) => Ok (q ++ [(g, e_cond e)]) end) edges acc = Ok ps' ->
-  ps = ps' /\ Forall (fun p : nat * econd => c_cname (snd p) = []) ps.
+  ps = ps' /\ Forall (fun p : nat * econd => cond_ok (snd p)) ps.
 Proof.
   induction edges as [|e r IH]; intros acc ps ps' Hsim Hes Hacc; cbn.
   - intros H1 H2. injection H1 as <-. injection H2 as <-. auto.
@@ -429,3 +560,4 @@ Lemma Sim_with_stack phi sr sc stk hs :
   Sim phi sr sc -> Sim phi (mkSt (s_nodes sr) (s_groups sr) (s_rowmap sr) (s_names sr) stk) (set_stack_heads sc stk hs).
 Proof. intros [H1 H2 H3 H4 H5 H6 H7 H8]. constructor; cbn; auto. Qed.
 End Step.
+End WithNames.
